@@ -271,7 +271,7 @@ Proof.
     destruct (str_eqb n f_traceback); [injection Hn as <-; apply plain_value, forbidden_plain|].
     discriminate. }
   destruct (fill_keeps_markup _ _ _ Hctx template_no_amp Hr) as (A & Q & R).
-  repeat split; [exact A | exact Q |]. specialize (R []). rewrite app_nil_r in R. exact R.
+  split; [exact A|]. split; [exact Q|]. specialize (R []). rewrite app_nil_r in R. exact R.
 Qed.
 
 (* ------------------------------------------------------------------ *)
@@ -292,6 +292,25 @@ Lemma critical_page_shape path_info debug x tb :
                       ++ html_escape_ombott tb ++ crit_close
         else []).
 Proof. reflexivity. Qed.
+
+Lemma critical_page_safe_lemma path_info debug x tb :
+    critical_page isp path_info debug x tb
+    = crit_head
+      ++ html_escape_ombott (match path_info with Some p => p | None => crit_default_path end)
+      ++ crit_head_end
+      ++ (if debug then crit_err_open ++ html_escape_ombott (repr_exc isp x) ++ crit_tb_open
+                        ++ html_escape_ombott tb ++ crit_close
+          else [])
+    /\ forall s, no_angle (html_escape_ombott s) = true /\ no_quote (html_escape_ombott s) = true
+                 /\ amp_ok (html_escape_ombott s) = true.
+Proof. split; [apply critical_page_shape | apply escaped_safe]. Qed.
+
+Lemma html_safe_lemma e url :
+    render isp e url false = Some (html_pre e ++ url_text isp url ++ html_post e)
+    /\ no_angle (url_text isp url) = true
+    /\ amp_ok (url_text isp url) = true
+    /\ exists inner, url_text isp url = 39%N :: inner ++ [39%N] /\ no_quote inner = true.
+Proof. split; [apply render_nodebug|]. destruct (url_text_safe url) as (A & B & C). auto. Qed.
 
 End Table.
 
